@@ -30,7 +30,7 @@ typedef struct {
 static const t_bidib_node_address NODES[4] = {{0, 0, 0}, {3, 0, 0}, {3, 4, 0}, {3, 4, 5}};
 
 /* case enumeration per function: list of (a[], plen) */
-typedef struct { uint8_t a[12]; int plen; uint8_t fillbyte; } c18_case_t;
+typedef struct { uint8_t a[12]; int plen; uint8_t fillbyte; int content; } c18_case_t;     /* content 1: {':', v, '1'}, 2: {v, v, v} with v = fillbyte */
 static long fn_cases(const c18_fn_t *f) {
 	long n;
 	if (f->nargs == 0) n = 1;
@@ -39,7 +39,7 @@ static long fn_cases(const c18_fn_t *f) {
 		n = 0;
 		for (int i = 0; i < f->nargs; i++) { long others = 1; for (int k = 0; k < f->nargs; k++) if (k != i) others *= f->nbounds[k] > 0 ? (f->nbounds[k] > 2 ? 2 : f->nbounds[k]) : 1; n += 256 * others; }
 	}
-	if (f->payload_max >= 0) n += 2L * 256;                        /* payload lengths 0..255 (every value the uint8 size parameter can take), two fill bytes, with boundary args */
+	if (f->payload_max >= 0) n += 2L * 256 + 2L * 256;             /* + payload CONTENT: every byte value in the middle of / all over a 3-byte payload; payload lengths 0..255 (every value the uint8 size parameter can take), two fill bytes, with boundary args */
 	return n;
 }
 static void fn_case(const c18_fn_t *f, long idx, c18_case_t *c) {
@@ -62,6 +62,7 @@ static void fn_case(const c18_fn_t *f, long idx, c18_case_t *c) {
 	}
 	if (f->nargs == 0 && idx < 1) return;
 	idx -= base;
+	if (idx >= 512) { idx -= 512; c->plen = f->payload_max < 3 ? f->payload_max : 3; c->fillbyte = (uint8_t) (idx % 256); c->content = 1 + (int) (idx / 256); return; }
 	c->plen = (int) (idx / 2); c->fillbyte = (idx & 1) ? 0xFE : 0x41;
 }
 typedef struct { int32_t fn; int32_t node; int32_t start, count; } c18_job_t;
@@ -82,6 +83,7 @@ static void c18_child(const void *job, size_t n) {
 		uint8_t *payload = malloc((size_t) cs.plen + 1);     /* exact-size heap buffer (plus 0 bytes): over-reads are visible to ASan */
 		payload = realloc(payload, cs.plen ? (size_t) cs.plen : 1);
 		for (int i = 0; i < cs.plen; i++) payload[i] = (i % 7 == 3) ? cs.fillbyte : (uint8_t) (0x30 + i % 10);
+		if (cs.content) for (int i = 0; i < cs.plen; i++) payload[i] = (cs.content == 2 || i == 1) ? cs.fillbyte : i ? '1' : ':';
 		uint8_t rtype = 0, rdata[300]; int rlen = f->ref(cs.a, cs.plen, payload, &rtype, rdata);
 		int unspecified = 0;
 		if (rlen <= -100) { unspecified = 1; rlen = -rlen - 100; }        /* the message definitions leave these arguments open */
@@ -91,12 +93,12 @@ static void c18_child(const void *job, size_t n) {
 			else if (rlen > 121) unspecified = 1;                           /* fits at this depth but not at depth 3: a depth-independent limit is acceptable */
 		}
 		vs_sleep_us(2500000);                                 /* earlier requests expire: every call meets an empty budget */
-		{ static char ctx[300]; size_t co = (size_t) snprintf(ctx, sizeof ctx, "%s(node depth %d; args", f->name, j.node); for (int i = 0; i < f->nargs; i++) co += (size_t) snprintf(ctx + co, sizeof ctx - co, " %02x", cs.a[i]); snprintf(ctx + co, sizeof ctx - co, "; payload %d bytes)", f->payload_max >= 0 ? cs.plen : -1); hx_set_context(ctx); }
+		{ static char ctx[300]; size_t co = (size_t) snprintf(ctx, sizeof ctx, "%s(node depth %d; args", f->name, j.node); for (int i = 0; i < f->nargs; i++) co += (size_t) snprintf(ctx + co, sizeof ctx - co, " %02x", cs.a[i]); snprintf(ctx + co, sizeof ctx - co, "; payload %d bytes%s)", f->payload_max >= 0 ? cs.plen : -1, cs.content ? (cs.plen ? hx_hex(payload, (size_t) cs.plen) : "") : ""); hx_set_context(ctx); }
 		f->call(node, cs.a, cs.plen, payload);
 		bidib_flush();
 		char what[256]; size_t wo = (size_t) snprintf(what, sizeof what, "%s(node depth %d; args", f->name, j.node);
 		for (int i = 0; i < f->nargs; i++) wo += (size_t) snprintf(what + wo, sizeof what - wo, " %02x", cs.a[i]);
-		snprintf(what + wo, sizeof what - wo, "; payload %d bytes)", f->payload_max >= 0 ? cs.plen : -1);
+		snprintf(what + wo, sizeof what - wo, "; payload %d bytes%s%s)", f->payload_max >= 0 ? cs.plen : -1, cs.content ? " = " : "", cs.content && cs.plen ? hx_hex(payload, (size_t) cs.plen) : "");
 		int bad = hx_emit_san_events(what);
 		static rc_pkt_t pk[4]; char err[160];
 		size_t len = env_out_len() - woff; const uint8_t *w = env_out() + woff; woff = env_out_len();
